@@ -10,6 +10,7 @@ import (
 	"fmt"
 	"math/rand"
 	"os"
+	"runtime"
 	"sync"
 
 	"github.com/alicebob/sqlittle"
@@ -36,6 +37,11 @@ type stressOp struct {
 func stressOps() []stressOp {
 	return []stressOp{
 		{Kind: "select", Table: "r", Cols: []string{"id", "a", "b"}},
+		// overflowing BLOB / TEXT values: assembled from several pages in scratch memory
+		{Kind: "select", Table: "r", Cols: []string{"id", "c", "b"}},
+		{Kind: "indexed", Table: "r", Index: "rb", Cols: []string{"c", "id"}},
+		{Kind: "select", Table: "ovn", Cols: []string{"id", "t"}},
+		{Kind: "select", Table: "ovw", Cols: []string{"k", "v"}},
 		{Kind: "select", Table: "w", Cols: []string{"k1", "k2", "v"}},
 		{Kind: "select", Table: "alt", Cols: []string{"p", "q", "d1", "d2"}},
 		{Kind: "indexed", Table: "r", Index: "ra", Cols: []string{"id", "a"}},
@@ -69,6 +75,10 @@ func rowsEnc(rows [][]interface{}) [][]jval {
 func runNative(db *sqlittle.DB, op stressOp) string {
 	var rows [][]interface{}
 	collect := func(r sqlittle.Row) {
+		// the row is the callback's for as long as the callback runs: let other goroutines run before looking at it
+		if len(rows)%3 == 0 {
+			runtime.Gosched()
+		}
 		cp := make([]interface{}, len(r))
 		for i, v := range r {
 			if b, ok := v.([]byte); ok {
@@ -177,6 +187,9 @@ func cmdStress(args []string) int {
 			f := req.DBs[g%len(req.DBs)]
 			db, err := sqlittle.Open(f) // every goroutine its own handle
 			if err != nil {
+				mu.Lock()
+				recs = append(recs, rec{g, f + "|open", false, digestRows(nil, err)})
+				mu.Unlock()
 				return
 			}
 			defer db.Close()
@@ -227,8 +240,14 @@ func cmdStress(args []string) int {
 	for _, f := range req.DBs {
 		db, err := sqlittle.Open(f)
 		if err != nil {
-			fmt.Fprintln(os.Stderr, err)
-			return 2
+			// a file that cannot be opened (hot journal): the refusal itself is the solo result
+			solo[f+"|open"] = digestRows(nil, err)
+			sdb, _ := sql.Open("sqlittle", f)
+			for i, q := range queries {
+				solo[fmt.Sprintf("%s|q%d", f, i)] = runSQL(sdb, q)
+			}
+			sdb.Close()
+			continue
 		}
 		for i, op := range ops {
 			solo[fmt.Sprintf("%s|n%d", f, i)] = runNative(db, op)
